@@ -584,12 +584,12 @@ def helpers():
         evaluation so that caches of one configuration never leak into the next (histories are explicit)."""
         cases = cases or H.CASES
         quick = tier == "quick"
-        seeds = seeds or ([0] if quick else [0, 1])
         base = int(__import__("os").environ.get("VERIF_SEED", "0") or 0)
         cb = combos_ if combos_ is not None else combos(tier, dtypes, batches, sizes)
         for nm in names:
             c = cases[nm]
-            for (dt, batch, n), sd in itertools.product(cb, seeds):
+            for (dt, batch, n) in cb:
+              for sd in (seeds or ([0] if quick or n > 2 else [0, 1])):  # thorough: a second seed for the small sizes
                 if dt == torch.float32 and not getattr(c, "f32", True):
                     continue
                 s = zlib.crc32(repr((c.name, str(dt), batch, n, sd + base)).encode()) % (2 ** 31)
@@ -624,6 +624,13 @@ def helpers():
 
     H.eps_of, H.tau_direct = eps_of, tau_direct
     H.TAU_LANCZOS = 2e-5  # tridiagonal jitter 1e-6 (relative) with head-room; see RTC_META["assumptions"]
+
+    def tau_lanczos(dt, kap):
+        """results built on Lanczos roots: documented jitter (float64); in float32 the accuracy additionally depends on how
+        close the random start vector is to an invariant subspace, hence the wide margin"""
+        return (H.TAU_LANCZOS if dt == f64 else 5e-3) * max(1.0, kap / 1e2)
+
+    H.tau_lanczos = tau_lanczos
 
     def mat(x):  # view a possibly 1-D rhs as a matrix
         return x.unsqueeze(-1) if x.dim() == 1 else x
@@ -807,7 +814,7 @@ def _solve_checks(H, rec, c, label, make, D, kap, cfgname, cfg, pairs, tier, ent
                 bound = 4 * kap * max(tol, floor)
                 rec.check(vgrp, lab, bound >= 0.3 or err <= bound, f"CG path with left factor: relative error {err:.3e} > {bound:.1e}", nontrivial=bound < 0.3)
         else:
-            tau = H.TAU_LANCZOS * max(1.0, kap / 1e2) if used_lanczos else H.tau_direct(dt, kap, N, lin32)
+            tau = max(H.tau_lanczos(dt, kap), H.tau_direct(dt, kap, N, lin32)) if used_lanczos else H.tau_direct(dt, kap, N, lin32)
             if Lf is None or lk == "orth":
                 r = H.backward_residual(Dm, Xs, B)
                 rec.check(vgrp, lab, r <= tau, f"{'lanczos-root' if used_lanczos else 'direct'} path: ||DX-B||/(||D||||X||+||B||) = {r:.3e} > {tau:.1e}; "
@@ -843,12 +850,14 @@ def rtc_solve(case_names, tier):
                 continue  # condition number above the CG bound (1e4): direct methods only
             if cfg.get("linalg_f32") and kap > 1e3:
                 continue
-            if role == "full" or not quick:
+            if role == "full":
                 pairs = FULL_PAIRS
             else:
-                if (k + j) % 2:  # quick: every side configuration on every second instance (alternating)
+                if quick and (k + j) % 2:  # quick: every side configuration on every second instance (alternating)
                     continue
                 pairs = [("mat", "none"), ("bcast1", "none")] if batch else [("vec", "none"), ("mat", "none")]
+                if not quick:
+                    pairs = pairs + [("extra", "none"), ("mat", "rect")]
             _solve_checks(H, rec, c, label, make, D, kap, cfgname, cfg, pairs, tier)
         # iteration cap far below N: either converged or warned, never an exception / wrong shape
         if getattr(c, "cg", True) and N >= 4:
